@@ -64,7 +64,7 @@ func mutants(p *gen.Program, render func() string) []mutant {
 				{"capture-unknown-name", &gen.Cond{C: &gen.Raw{Text: "$nosuchgroup == \"x\""}}, false},
 				{"undefined-decorator", &gen.RawStmt{Text: "@nosuchdeco {\n}"}, false},
 				{"next-outside-decorator", &gen.Next{}, b.InDef},
-				{"unused-declaration", &gen.RawStmt{Text: "counter zz_unused_nested"}, b.InDef},
+				{"unused-declaration", &gen.RawStmt{Text: "counter zz_unused_nested"}, false},
 				{"redeclared-name", &gen.RawStmt{Text: "counter zz_twice\ncounter zz_twice\nzz_twice++"}, b.InDef || pos != 0},
 				{"int-div-by-literal-zero", &gen.Cond{C: &gen.Raw{Text: "3 / 0 > 1"}}, false},
 				{"int-mod-by-literal-zero", &gen.Cond{C: &gen.Raw{Text: "7 % 0 == 1"}}, pos != 0},
@@ -176,6 +176,23 @@ func mutants(p *gen.Program, render func() string) []mutant {
 				pt.Parts = []gen.PatPart{{Lit: pad(lim)}}
 				add("regex-too-long", fmt.Sprintf("pattern#%d limit=%d", pi, lim), compiler.MaxRegexpLength(lim))
 			}
+		}
+		// over the limit only as a whole: every piece is within the limit and
+		// the piece that tips the total over comes last and is not a literal
+		if !hasConst {
+			oldC := p.Consts
+			half := pt.Regex
+			for len(half) <= 600 {
+				half += "b?"
+			}
+			tail := strings.Repeat("c?", 300)
+			p.Consts = append(append([]*gen.ConstDef{}, oldC...), &gen.ConstDef{Name: "ZZTAIL", Regex: tail})
+			pt.Parts = []gen.PatPart{{Lit: half}, {Const: "ZZTAIL"}}
+			add("regex-too-long", fmt.Sprintf("pattern#%d literal + const, default-limit", pi))
+			p.Consts = append(append([]*gen.ConstDef{}, oldC...), &gen.ConstDef{Name: "ZZHEAD", Regex: half}, &gen.ConstDef{Name: "ZZTAIL", Regex: tail})
+			pt.Parts = []gen.PatPart{{Lit: "^"}, {Const: "ZZHEAD"}, {Const: "ZZTAIL"}}
+			add("regex-too-long", fmt.Sprintf("pattern#%d short literal + const + const, default-limit", pi))
+			p.Consts = oldC
 		}
 		pt.Parts = oldParts
 	}
